@@ -294,47 +294,29 @@ def PStore.applyAll (s : PStore) (ws : List Write) : PStore := ws.foldl PStore.a
 
 /-! ### a trie over a layered store -/
 
-/-- a node reference together with its key (the collector calls `GetHash` on the same node several times; the
-    model computes it once per `insertNode`/`deleteNode`) -/
-structure KRef where
-  ref : Ref
-  key : Bytes
-
-def Ref.keyed (H : Bytes → Bytes) (r : Ref) : KRef := ⟨r, r.key H⟩
-
-/-- key and stored encoding of a non-empty node from ONE evaluation of its body
-    (`keyEnc_eq`: equal to `(r.key H, r.encode H)`) -/
-def Ref.keyEnc (H : Bytes → Bytes) (r : Ref) : Bytes × Bytes :=
-  let b := body H r.t r.pos
-  let o := le64 (origin r.t)
-  (H (o ++ b), [typeByte r.t] ++ o ++ o ++ b)
-
 structure Trie where
   root : Bytes          -- `mpt.root` ([] = nil)
   tree : Node           -- the content the root stands for
   version : Nat
   db : Level := {}
-  cc : Collector Bytes KRef
+  cc : Collector Bytes Ref
 
 def Trie.open (root : Bytes) (tree : Node) (version : Nat) : Trie :=
   { root := root, tree := tree, version := version, cc := { startRoot := root } }
 
 /-- `insertNode(oldNode, newNode)` -/
 def Trie.insertNode (H : Bytes → Bytes) (t : Trie) (old : Option Ref) (new : Ref) : Trie :=
-  let ke := new.keyEnc H
-  let n : KRef := ⟨new, ke.1⟩
-  let db1 := t.db.put ke.1 ke.2
+  let ck := new.key H
+  let db1 := t.db.put ck (new.encode H)
   match old with
-  | none => { t with db := db1, cc := t.cc.addChange KRef.key none n }
+  | none => { t with db := db1, cc := t.cc.addChange (Ref.key H) none new }
   | some o =>
-    let ko := o.keyed H
-    if ko.key = n.key then { t with db := db1 }
-    else { t with db := db1.delete ko.key, cc := t.cc.addChange KRef.key (some ko) n }
+    if o.key H = ck then { t with db := db1 }
+    else { t with db := db1.delete (o.key H), cc := t.cc.addChange (Ref.key H) (some o) new }
 
 /-- `deleteNode(node)` -/
 def Trie.deleteNode (H : Bytes → Bytes) (t : Trie) (o : Ref) : Trie :=
-  let ko := o.keyed H
-  { t with cc := t.cc.deleteChange KRef.key ko, db := t.db.delete ko.key }
+  { t with cc := t.cc.deleteChange (Ref.key H) o, db := t.db.delete (o.key H) }
 
 def Trie.applyEvent (H : Bytes → Bytes) (t : Trie) : Event → Trie
   | .put old new => t.insertNode H old new
@@ -361,24 +343,28 @@ inductive MergeRes where
   | stale            -- "optimistic lock failure"; the parent is not touched
 
 /-- `mergeChanges(newRoot, changes, deletes, startRoot)`; `newTree` is the content `newRoot` stands for -/
-def mergeChanges (H : Bytes → Bytes) (p : Trie) (newRoot : Bytes) (newTree : Node) (changes : List (Change KRef))
-    (deletes : List KRef) (startRoot : Bytes) : MergeRes :=
+def mergeChanges (H : Bytes → Bytes) (p : Trie) (newRoot : Bytes) (newTree : Node) (changes : List (Change Ref))
+    (deletes : List Ref) (startRoot : Bytes) : MergeRes :=
   if p.root = newRoot then .ok p
   else if p.root ≠ startRoot then .stale
   else
-    let p1 := changes.foldl (fun t c => t.insertNode H (c.old.map (·.ref)) c.new.ref) p
-    let p2 := deletes.foldl (fun t d => t.deleteNode H d.ref) p1
+    let p1 := changes.foldl (fun t c => t.insertNode H c.old c.new) p
+    let p2 := deletes.foldl (Trie.deleteNode H) p1
     .ok { p2 with root := newRoot, tree := newTree }
 
-/-- `MergeMPTChanges(mpt2)` for a direct child over a `LevelNodeDB` of the same version -/
-def mergeMPTChanges (H : Bytes → Bytes) (p c : Trie) : MergeRes :=
+/-- `MergeMPTChanges(mpt2)` for a direct child over a `LevelNodeDB` of the same version. Go replays the child's
+    changes in the iteration order of a map, i.e. in an unspecified order: `changes` is that order (a permutation of
+    `c.cc.getChanges`). -/
+def mergeMPTChangesOrd (H : Bytes → Bytes) (p c : Trie) (changes : List (Change Ref)) : MergeRes :=
   if p.root = c.root then .ok p
-  else mergeChanges H p c.root c.tree c.cc.getChanges c.cc.getDeletes c.cc.startRoot
+  else mergeChanges H p c.root c.tree changes c.cc.getDeletes c.cc.startRoot
+
+def mergeMPTChanges (H : Bytes → Bytes) (p c : Trie) : MergeRes := mergeMPTChangesOrd H p c c.cc.getChanges
 
 /-- the write stream of `SaveChanges(pndb, false)` followed by `RecordDeadNodes(GetDeletes(), version)` -/
 def saveStream (H : Bytes → Bytes) (t : Trie) : List Write :=
-  [ .putNodes (t.cc.getChanges.map (fun c => (c.new.ref.key H, c.new.ref.encode H))),
-    .putRec t.version (t.cc.getDeletes.map (fun d => d.ref.key H)) ]
+  [ .putNodes (t.cc.getChanges.map (fun c => (c.new.key H, c.new.encode H))),
+    .putRec t.version (t.cc.getDeletes.map (Ref.key H)) ]
 
 /-- `PruneBelowVersion(version)`: the records below `version` in ascending order; their keys are deleted in batches
     closed as soon as `maxN` keys are gathered, the rest in a last batch; then one batch drops the records. -/
